@@ -157,7 +157,7 @@ def run_shard(ctx):
     shrunk = 0
     while not ctx.out_of_time():
         sep = rng.choice(SEP_CONFIGS) if rng.random() < 0.5 else DEFAULT_SEP
-        cfg = {'dec': sep[0], 'thou': sep[1], 'digits': 2, 'noise': rng.random() < 0.25}      # noise: a neutral API history first (gen_hostile.config_ops)
+        cfg = {'dec': sep[0], 'thou': sep[1], 'digits': 2, 'noise': rng.random() < 0.25, 'thou_first': rng.random() < 0.5}      # both orders of the separator setters; noise: a neutral API history first (gen_hostile.config_ops)
         cops = gh.config_ops(cfg)
         ops = list(cops)
         meta = []
